@@ -344,8 +344,9 @@ vbi_bit_slicer_init(vbi_bit_slicer *slicer,
 		    int cri_bits, int frc_bits, int payload,
 		    vbi_modulation modulation, vbi_pixfmt fmt)
 {
-	unsigned int c_mask = (unsigned int)(-(cri_bits > 0)) >> (32 - cri_bits);
-	unsigned int f_mask = (unsigned int)(-(frc_bits > 0)) >> (32 - frc_bits);
+	/* Mind that a shift by 32 is undefined: VPS and WSS have no FRC. */
+	unsigned int c_mask = (cri_bits > 0) ? ~0U >> (32 - cri_bits) : 0;
+	unsigned int f_mask = (frc_bits > 0) ? ~0U >> (32 - frc_bits) : 0;
 	int gsh = 0;
 
 	slicer->func = bit_slicer_1;
